@@ -1,7 +1,7 @@
 """C18 driver: replay operation sequences on qset / linqset / Predicates.
 
 usage: d_containers.py <seqs.ndjson> <out.ndjson> <shard> <nshards>
-Universe values 1..4; for Predicates they stand for F/1, F/2, G/1, H/2.
+Universe values 1..5; for Predicates they stand for F/1, F/2, G/1, H/2, G/2.
 """
 import json
 import sys
@@ -10,7 +10,7 @@ from pytableaux.lang import Predicate, Predicates
 from pytableaux.tools.hybrids import qset
 from pytableaux.tools.linked import linqset
 
-PRED = {1: Predicate(0, 0, 1), 2: Predicate(0, 0, 2), 3: Predicate(1, 0, 1), 4: Predicate(2, 0, 2)}
+PRED = {1: Predicate(0, 0, 1), 2: Predicate(0, 0, 2), 3: Predicate(1, 0, 1), 4: Predicate(2, 0, 2), 5: Predicate(1, 0, 2)}
 PNUM = {v: k for k, v in PRED.items()}
 SLICES = {'0:1': slice(0, 1), '1:': slice(1, None), ':2': slice(None, 2), '1:3': slice(1, 3), '::2': slice(None, None, 2)}
 
@@ -36,7 +36,7 @@ class Dom:
 def observe(D, c):
     lst = [D.num(x) for x in c]
     member, index = [0], [0]          # 1-based for TLA: element 0 is padding and dropped below
-    for v in (1, 2, 3, 4):
+    for v in (1, 2, 3, 4, 5):
         x = D.val(v)
         member.append(int(x in c))
         try:
@@ -61,7 +61,7 @@ def observe(D, c):
 
 def refs_of(D, c):
     out = []
-    for v in (1, 2, 3, 4):
+    for v in (1, 2, 3, 4, 5):
         found = []
         for ref in PRED[v].refs:
             try:
